@@ -8,7 +8,7 @@ import unicodedata
 from .core import rule
 from .model import AnalysisError, dotted, norm, walk_own
 from .paths import Parents, flat_guards, strip_not, cmp_atom, np_atom, decision_table, enumerate_paths
-from .pat import has, find, first, name_of
+from .pat import has, find, first, name_of, _parse
 from .rules_t import element_family, own_init, str_elts, module_const
 
 
@@ -18,12 +18,7 @@ def r1(ctx, res):
     f = ctx.func("custom_repr_args")
     s = f.params[0].name
     from .norm import view
-    keepv = set()
-    for node, b in find(f"MV_v = overrides.get(MV_p.name, getattr({s}, MV_p.name, None))", f):
-        keepv.add(name_of(b["MV_v"]))
-    for node, b in find(f"MV_v = getattr({s}, MV_p.name, None)", f):
-        keepv.add(name_of(b["MV_v"]))
-    vb = view(f, ctx.prog, keep=tuple(sorted(keepv))).body
+    vb = view(f, ctx.prog).body
     sig_pats = [f"list(inspect.signature(type({s}).__init__).parameters.values())[1:]",
                 f"list(inspect.signature({s}.__class__.__init__).parameters.values())[1:]"]
     loops = [n for n in walk_own(vb) if isinstance(n, ast.For) and any(has(sp, n.iter) and norm(n.iter) == norm(first(sp, n.iter)[0]) for sp in sig_pats)]
@@ -33,22 +28,39 @@ def r1(ctx, res):
         return
     lp = loops[0]
     p = norm(lp.target)
+    val_texts = {norm(_parse(t)) for t in (f"overrides.get({p}.name, getattr({s}, {p}.name, None))", f"getattr({s}, {p}.name, None)")}
+    # the value may also stay in a loop-local name
     val = None
     for node, b in find(f"MV_v = overrides.get({p}.name, getattr({s}, {p}.name, None))", lp.body):
-        val = name_of(b["MV_v"])
+        if isinstance(b["MV_v"], ast.Name):
+            val = name_of(b["MV_v"])
     for node, b in find(f"MV_v = getattr({s}, {p}.name, None)", lp.body):
-        val = name_of(b["MV_v"])
-    res.check(val is not None, f, "value = getattr(self, param.name, ...)", reason="each parameter is read from the same-named attribute")
-    if val is None:
-        return
-    skips = [st for st in lp.body if isinstance(st, ast.If) and len(st.body) == 1 and isinstance(st.body[0], ast.Continue)]
-    ok_skip = len(skips) == 1 and norm(skips[0].test) in (f"{val} == {p}.default", f"{p}.default == {val}")
+        if isinstance(b["MV_v"], ast.Name):
+            val = name_of(b["MV_v"])
+    if val is not None:
+        val_texts = {val}
+    skips = [st for st in lp.body if isinstance(st, ast.If) and len(st.body) == 1 and isinstance(st.body[0], ast.Continue) and not st.orelse]
     n_cont = sum(1 for x in ast.walk(lp) if isinstance(x, (ast.Continue, ast.Break)))
-    res.check(ok_skip and n_cont == 1, f, "if value == param.default: continue", detail={"skips": [norm(s_.test) for s_ in skips]},
+    verdict = None
+    used = None
+    if len(skips) == 1 and n_cont == 1:
+        t = skips[0].test
+        c = cmp_atom(t)
+        if c and c[1] == "==" and (c[0] in val_texts and c[2] == f"{p}.default" or c[2] in val_texts and c[0] == f"{p}.default"):
+            verdict = True
+            used = c[0] if c[0] in val_texts else c[2]
+        elif c is None or c[1] != "==" or f"{p}.default" not in (c[0], c[2]):
+            # a different kind of test on the value (truthiness, identity, ...) decides the omission
+            if any(vt in norm(t) for vt in val_texts):
+                verdict = False
+    res.judge(verdict, f, "if value == param.default: continue", detail={"skips": [norm(s_.test) for s_ in skips], "continues": n_cont},
               reason="a keyword is omitted exactly when it EQUALS the constructor default (an equality, not a truthiness test, "
                      "which would hide 0, False, '' and [])")
-    ok_place = has(f"if {p}.kind == {p}.VAR_POSITIONAL:\n    MV_a.extend({val} or [])\nelif {p}.kind == {p}.KEYWORD_ONLY:\n    MV_k[{p}.name] = {val}\nelse:\n    MV_a.append({val})", lp.body)
-    res.check(ok_place, f, "placed by parameter kind (varargs / keyword-only / positional)", reason="the value is put back where the constructor takes it")
+    if used is None:
+        return
+    ok_place = has(f"if {p}.kind == {p}.VAR_POSITIONAL:\n    MV_a.extend({used} or [])\nelif {p}.kind == {p}.KEYWORD_ONLY:\n    MV_k[{p}.name] = {used}\nelse:\n    MV_a.append({used})", lp.body)
+    res.judge(True if ok_place else None, f, "placed by parameter kind (varargs / keyword-only / positional)",
+              reason="the value is put back where the constructor takes it")
     res.check(has("return Args(*MV_a, **MV_k)", f), f, "return Args(*args, **kwargs)", reason="all collected arguments are rendered")
     ar = ctx.func("Args.__repr__")
     ok = has("[repr(MV_a) for MV_a in self.args]", ar) and \
